@@ -3,6 +3,8 @@ package checks
 
 import (
 	"fmt"
+	"os"
+	"strings"
 
 	"github.com/buzzfeed/sso/verif/engine/explore"
 	fw "github.com/buzzfeed/sso/verif/framework"
@@ -15,9 +17,32 @@ func drive(c *fw.Ctx, scenario string, bound int, run func(x *explore.Exec, owne
 		if c.Replay.Scenario != scenario {
 			return explore.Stats{}
 		}
+		if pre := os.Getenv("VERIF_REPLAY_AFTER"); pre != "" {
+			// debugging aid: execute other choice vectors (";"-separated, ","-separated ints) in this
+			// process first, to look for state that leaks from one execution into the next
+			for _, vec := range strings.Split(pre, ";") {
+				var ch []int
+				for _, f := range strings.Split(vec, ",") {
+					n := 0
+					fmt.Sscan(f, &n)
+					ch = append(ch, n)
+				}
+				px := explore.NewExec(ch)
+				run(px, false)
+				fmt.Fprintf(os.Stderr, "pre-execution %v: %d points\n", ch, len(px.Trace))
+			}
+		}
 		x := explore.NewExec(c.Replay.Choices)
 		run(x, true)
+		fmt.Fprintf(os.Stderr, "replayed execution: %d points\n", len(x.Trace))
 		return explore.Stats{Execs: 1}
+	}
+	if only := os.Getenv("VERIF_ONLY_SCENARIO"); only != "" && !strings.Contains(scenario, only) {
+		// debugging aid (never set by a registered command): explore one scenario family only; the claim
+		// ordinal is still consumed so that workers stay aligned
+		c.NextClaim()
+		c.Res.Note("scenario %s skipped (VERIF_ONLY_SCENARIO)", scenario)
+		return explore.Stats{}
 	}
 	st := explore.Explore(explore.Config{Bound: bound, Deadline: c.Deadline, Shard: c.Shard, NShards: c.NShards, ShardDepth: 3, Claim: c.NextClaim(), Retries: c.Retries}, run)
 	c.Res.Execs += st.Execs
